@@ -22,6 +22,11 @@
 #include "containers.h"
 
 #define SVEC_LOOKUP_MAX 8
+/* DSVEC_CTOR_HOOK(self): optional ghost hook run by DSVectorBase(int) - lets a unit export alias pointers to
+ * the members of a vector that a sliced body builds locally (loop invariants cannot name C++ members) */
+#ifndef DSVEC_CTOR_HOOK
+#define DSVEC_CTOR_HOOK(self)
+#endif
 
 template <class T>
 struct SVectorLk
@@ -62,6 +67,7 @@ struct DSVectorBase : SVectorLk<T>
    {
       this->vals = buf_v; this->idxs = buf_i; this->used = 0; this->cap = SVEC_LOOKUP_MAX;
       this->bound = 0x7fffffff;
+      DSVEC_CTOR_HOOK(this)
    }
    void add(int i, const T& v)
    {
